@@ -7,6 +7,7 @@
 //! leg reports into evidence and prints the verdict lines.
 
 mod checks;
+mod collide;
 mod fv;
 mod gen;
 mod pool;
